@@ -281,6 +281,13 @@ def _dtype_by_space_type(index: RepoIndex, f, e: ast.AST, v: str, st: str = '', 
                 return lv
         elif isinstance(x, ast.Name) and x.id in ('int', 'float'):
             return x.id
+        elif isinstance(x, ast.Attribute) and src(x.value) in ('np', 'numpy') or \
+                isinstance(x, ast.Constant) and isinstance(x.value, str):
+            # numpy's names for the two kinds the conversions produce; any other width is
+            # its own kind (a float32 box does not contain the float64 arrays of convert)
+            t_ = x.attr if isinstance(x, ast.Attribute) else x.value
+            return {'float64': 'float', 'float_': 'float', 'double': 'float',
+                    'int64': 'int', 'int_': 'int'}.get(t_, t_)
         if isinstance(x, ast.IfExp):
             t = truth(x.test, m)
             return None if t is None else val(x.body if t else x.orelse, m, depth - 1)
@@ -363,6 +370,11 @@ def check_gym_space(index: RepoIndex, rep, rule: str) -> None:
                     if dte is not None and table is None:
                         raise AnalysisError(f'outer_space_to_gym_space: dtype `{src(dte)[:80]}` '
                                             f'is not readable as a table over SpaceType')
+                    # bounds cast to the very dtype the box is given are the bounds
+                    cast = f'.astype({src(dte)})' if dte is not None else None
+                    for b_ in ('low', 'high'):
+                        if cast and kw.get(b_, '').endswith(cast):
+                            kw[b_] = kw[b_][:-len(cast)]
                     ok = kw.get('low') == f'{v}.lower_bound' and \
                         kw.get('high') == f'{v}.upper_bound' and \
                         table == {'CATEGORICAL': 'int', 'DISCRETE': 'int', 'CONTINUOUS': 'float'}
